@@ -110,7 +110,7 @@ CASES = [
     ("m-c18-default", "C18", "fire", "xdis/cross_dis.py", "def findlabels_pre_310(code, opc):\n    \"\"\"Returns a list of instruction offsets in the supplied bytecode\n    which are the targets of some sort of jump instruction.\n    \"\"\"\n    offsets = []",
      "def findlabels_pre_310(code, opc, offsets=[]):\n    \"\"\"Returns a list of instruction offsets in the supplied bytecode\n    which are the targets of some sort of jump instruction.\n    \"\"\"", "write:default:"),
     ("m-c20-firstline", "C20", "fire", "xdis/bytecode.py", "            line_offset = first_line - co.co_firstlineno\n        else:\n            line_offset = 0\n        return get_instructions_bytes(", "            line_offset = first_line\n        else:\n            line_offset = 0\n        return get_instructions_bytes(", "line_offset=first_line"),
-    ("m-c20-global-api", "C20", "fire", "xdis/std.py", "                    opc = api_opc", "                    opc = _std_api.opc", "fallback-opc"),
+    ("m-c20-global-api", "C20", "fire", "xdis/std.py", "                    opc = api_opc", "                    opc = _std_api.opc", "decodes-with-api-table"),
     ("m-c20-probe", "C20", "fire", "xdis/cross_dis.py", "    elif hasattr(x, \"ag_code\"):  # ...an asynchronous generator object, or\n        x = x.ag_code\n", "", "probes@"),
     # ---------------- C13 / C14 / C15 / C16 / C17 / C19
     ("m-c13-header-size", "C13", "fire", "xdis/load.py", "    if version >= (3, 3):\n        # In Python 3.3+, these 4 bytes are the size", "    if version >= (3, 4):\n        # In Python 3.3+, these 4 bytes are the size", ":header"),
